@@ -18,6 +18,10 @@ var table = map[string]int{}
 func main() {
 	mode := os.Args[1]
 	var mu sync.Mutex
+	var rw sync.RWMutex
+	var pool = sync.Pool{New: func() interface{} { return new([4]int) }}
+	var done sync.WaitGroup
+	ch := make(chan int, 4)
 	res := simrt.Run(simrt.Config{Budget: 1_000_000, Chooser: simrt.NewRandomChooser(7, 2)}, func() {
 		var wg sync.WaitGroup
 		for k := 0; k < 3; k++ {
@@ -41,6 +45,36 @@ func main() {
 						counter++
 						table["k"]++
 						mu.Unlock()
+					case "racy-under-rlock":
+						// a write under a read lock is not protected from other readers
+						simrt.RLock(&rw, 100)
+						counter++
+						simrt.RUnlock(&rw, 101)
+					case "racy-beside-pool":
+						// using a pool orders nothing but the hand-over of the pooled object
+						b := simrt.PoolGet(&pool, 102).(*[4]int)
+						b[0]++
+						simrt.PoolPut(&pool, b, 103)
+						counter++
+					case "racy-beside-waitgroup":
+						simrt.WgAdd(&done, 1, 104)
+						counter++
+						simrt.WgDone(&done, 105)
+					case "racy-beside-channel":
+						// a buffered send that nobody receives orders nothing
+						if i < 1 {
+							simrt.Send(ch, k, 106)
+						}
+						counter++
+					case "pooled":
+						// the pooled object itself is handed over with a happens-before edge
+						b := simrt.PoolGet(&pool, 102).(*[4]int)
+						b[0]++
+						simrt.PoolPut(&pool, b, 103)
+					case "wlocked":
+						simrt.Lock(&rw, 107)
+						counter++
+						simrt.Unlock(&rw, 108)
 					case "independent":
 						local += i
 					}
